@@ -1,6 +1,13 @@
 """C15 — scalar operations on segments and piecewise functions preserve breakpoints and act per piece (engine E1)."""
+import os
+import sys
+
+sys.path.insert(0, os.path.join(os.path.dirname(os.path.dirname(os.path.abspath(__file__))), "e2"))
 from e1 import HarnessSpec
 from props.e1util import run_e1, replay_cmd
+
+STRUCT_SIZES_QUICK = [0, 1, 2, 3, 4, 5, 6, 7, 8, 9, 16, 17, 31, 32, 33, 64, 65, 128, 257]
+STRUCT_SIZES_THOROUGH = [0, 1, 2, 3, 4, 5, 6, 7, 8, 9, 16, 17, 31, 32, 33, 64, 65, 128, 257, 512, 1000]
 
 LEVEL = "model_checking"
 
@@ -42,9 +49,23 @@ def run(rep, tier):
     rep.explanation = ("Bounded model checking of every per-piece operator of Segment<T> and Piecewise<T>, monomorphised over a piece type that "
                        "logs (operation, scalar bits) so that 'applied exactly as to that function alone' is a bit-for-bit statement; the "
                        "pointwise value statements then follow from C14.")
-    rep.bounds = {"segments": "1..3 quick, 1..4 thorough", "piece_type": "OpLog (harness-local); the generic code is the same for every T"}
+    rep.explanation += ("  In addition the same operators are executed symbolically from the MIR on up to 257 (1000) symbolic segments with "
+                        "the piece-level operation uninterpreted (e2/structural.py): every piece gets the operation once, in order, with the "
+                        "given scalar, and every breakpoint is kept; value-dependent shortcuts show up as extra paths.")
+    rep.bounds = {"segments": "Kani 1..3 quick, 1..4 thorough; MIR structure encoding %s (thorough to 1000)" % STRUCT_SIZES_QUICK,
+                  "piece_type": "OpLog (harness-local) under Kani, Poly0 with uninterpreted piece operations from the MIR; the generic code is "
+                                "the same for every T"}
     run_e1(rep, specs(tier))
+    from engine import E2
+    from props.struct_obl import structural_obligations
+    e = E2(rep, tier)
+    structural_obligations(e, ["mul", "mulassign", "neg", "translate"], STRUCT_SIZES_QUICK if tier == "quick" else STRUCT_SIZES_THOROUGH,
+                           "pw-structure", segment_level_ops=("mul", "mulassign", "translate"))
+    e.finish()
 
 
 def replay(path):
+    if path.endswith(".json"):
+        from props.struct_obl import replay_file
+        return replay_file(path)
     return replay_cmd(path)
